@@ -11,7 +11,7 @@ usage: seedcheck.py <property-id> <name> <patch.diff> <demo file> [--tier quick|
 """
 import json, os, shutil, subprocess, sys, time
 
-ENV = dict(os.environ, GOPROXY="off", GOSUMDB="off", GOTOOLCHAIN="local", GOFLAGS="")
+ENV = dict(os.environ, GOPROXY="off", GOSUMDB="off", GOTOOLCHAIN="local", GOFLAGS="", VMC_EVIDENCE_DIR="/verif/.work/seed-evidence")
 
 
 def sh(cmd, cwd=None, timeout=1800):
